@@ -143,13 +143,15 @@ pub fn programs_for(flavour: crate::sup::Flavour, tier: crate::sup::Tier) -> Vec
 }
 
 /// the scale programs in which size is a matter of the heap (objects alive across collections, number of collections,
-/// nesting depth), up to 4 097 of something (`big`: up to 70 000): for the heap monitors of C03 / C04. Built once per process.
+/// nesting depth), up to 4 097 of something (`big`: up to 10 000): for the heap monitors of C03 / C04. Built once per process.
 pub fn heap_programs(big: bool) -> &'static Vec<(String, String)> {
     static SMALL_CACHE: std::sync::OnceLock<Vec<(String, String)>> = std::sync::OnceLock::new();
     static BIG_CACHE: std::sync::OnceLock<Vec<(String, String)>> = std::sync::OnceLock::new();
-    let (cache, limit) = if big { (&BIG_CACHE, 70_000) } else { (&SMALL_CACHE, 4097) };
+    // (the sizes around 65 536 only reach the documented limits — a syntax error after 20 s of compiling — and add nothing
+    //  for the heap monitors)
+    let (cache, limit) = if big { (&BIG_CACHE, 10_000) } else { (&SMALL_CACHE, 4097) };
     cache.get_or_init(|| {
-        programs(big)
+        programs(false)
             .into_iter()
             .filter(|(n, _)| {
                 size_of(n) <= limit
